@@ -53,8 +53,9 @@ def execute_run(engine, verif_seed: int, run_index: int, tier: str, want_plan: b
     res = engine.execute(plan)
     res["run_index"] = run_index
     res["seed_run"] = seed_run
+    concrete = res.pop("concrete_plan", None)  # engines whose plan is resolved against a recorded trace
     if res.get("violations") or want_plan:
-        res["plan"] = plan
+        res["plan"] = concrete if (concrete is not None and res.get("violations")) else plan
     return res
 
 
